@@ -92,7 +92,7 @@ structure St where
   idx : Nat
   cells : List Char     -- `dest` (buffer sink)
   stream : List Char    -- bytes handed to putchar / fputc
-  deriving Repr
+  deriving Repr, DecidableEq
 
 abbrev M := Except Stop
 
@@ -136,9 +136,8 @@ def padZeros (limit : Nat) (buf : Str) : Str := buf ++ List.replicate (min limit
 /-- `if (len < PRINTF_NTOA_BUFFER_SIZE) buf[len++] = c;` -/
 def push (buf : Str) (c : Char) : Str := if buf.length < NTOA then buf ++ [c] else buf
 
-/-- `safec_ntoa_format` -/
-def ntoaFormat (fx : Fixes) (sk : Sink) (maxlen : Nat) (buf : Str) (negative : Bool) (base prec width : Nat)
-    (fl : Flags) (s : St) : M St :=
+/-- `safec_ntoa_format` up to its last line: the final contents of `buf[0..len)`, the adjusted `width` and flags -/
+def ntoaPrep (fx : Fixes) (buf : Str) (negative : Bool) (base prec width : Nat) (fl : Flags) : Str × Nat × Flags :=
   let unpadded := buf.length
   -- pad leading zeros
   let width1 := if !fl.left && width != 0 && fl.zeropad && (negative || fl.plus || fl.space) then width - 1 else width
@@ -169,8 +168,14 @@ def ntoaFormat (fx : Fixes) (sk : Sink) (maxlen : Nat) (buf : Str) (negative : B
     if buf3.length < NTOA then
       if negative then buf3 ++ ['-'] else if fl.plus then buf3 ++ ['+'] else if fl.space then buf3 ++ [' '] else buf3
     else buf3
-  if width1 > 2147483614 then .error (.ret (-(ESLEMAX : Int)))
-  else outRev sk maxlen buf4 width1 fl s
+  (buf4, width1, fl)
+
+/-- `safec_ntoa_format`: `ntoaPrep`, the `width > 2147483614` exit, `return safec_out_rev(…)` -/
+def ntoaFormat (fx : Fixes) (sk : Sink) (maxlen : Nat) (buf : Str) (negative : Bool) (base prec width : Nat)
+    (fl : Flags) (s : St) : M St :=
+  let r := ntoaPrep fx buf negative base prec width fl
+  if r.2.1 > 2147483614 then .error (.ret (-(ESLEMAX : Int)))
+  else outRev sk maxlen r.1 r.2.1 r.2.2 s
 
 /-- `digit < 10 ? '0' + digit : (flags & FLAGS_UPPERCASE ? 'A' : 'a') + digit - 10` -/
 def digitChar (d : Nat) (upper : Bool) : Char :=
